@@ -3,7 +3,7 @@
    twin runs differing only by rejected frames are therefore in equal states at every step, for all histories.
    Whether a frame counts as rejected is spec_accepts (Spec/L2Frame.v reference MIC + freshness rule), not the model. *)
 From Coq Require Import NArith ZArith List Bool.
-From LoraV Require Import Base.Bytes Model.Frame Spec.L2Frame Model.Region Model.Mac Proofs.SessionProofs.
+From LoraV Require Import Base.Bytes Model.Frame Spec.L2Frame Model.Region Model.Mac Proofs.SessionProofs Model.AsyncDev Model.NbDev Proofs.FrontEndReject.
 Import ListNotations.
 Local Open Scope N_scope.
 
@@ -29,4 +29,33 @@ Section C07.
     ja_check_mic_and_decrypt enc mac_fn bytes (cr_appkey c) = (Err e, buf) ->
     otaa_handle_rx enc mac_fn m nonce c bytes = Val (m, RNoUpdate, buf).
   Proof. intros m nonce c bytes e buf H. unfold otaa_handle_rx. rewrite H. reflexivity. Qed.
+
+  (* The front-ends (Model/AsyncDev.v, Model/NbDev.v).  "Rejected" is decided by the reference codec per activation state:
+     mac_rejects = (joined: not spec_accepts for any counter and not oversized | joining: not an authentic JoinAccept | unjoined: anything) *)
+
+  (* async_device RX1 / RX2: a window that hears a rejected frame is a window that timed out -- same device, same calls, same outcome *)
+  Theorem C07_async_window_rejected_frame_is_timeout : forall d e rf f rest,
+    mac_rejects enc mac_fn (ad_mac d) (firstn 256 f) (rf_max_payload rf) ->
+    e_fault e <> Some (e_calls e) ->
+    rx_listen enc mac_fn d (with_script e (SvX f :: rest)) rf = rx_listen enc mac_fn d (with_script e (SvT :: rest)) rf.
+  Proof. exact (async_window_rejected_frame_is_timeout enc mac_fn). Qed.
+
+  (* async_device Class C reception: a rejected frame costs one rx call; the device continues as the twin whose script lacks it *)
+  Theorem C07_async_rxc_rejected_frame_is_skipped : forall k d e rf duration resp f rest s,
+    m_state (ad_mac d) = Joined s -> e_fault e = None ->
+    mac_rejects enc mac_fn (ad_mac d) (firstn 256 f) (rf_max_payload rf) ->
+    rxc_until enc mac_fn (S k) d (with_script e (SvX f :: rest)) rf duration resp =
+    rxc_until enc mac_fn k d {| e_script := rest; e_calls := e_calls e + 1; e_fault := None; e_trace := ARxCont :: e_trace e |} rf duration resp.
+  Proof. exact (async_rxc_rejected_frame_is_skipped enc mac_fn). Qed.
+
+  (* nb_device: RxDone with a rejected frame = the radio still receiving: state, MAC and response (NoUpdate) identical; the window stays open *)
+  Theorem C07_nb_rejected_frame_keeps_the_window_open : forall join rx1 rx2 w rf m e packet,
+    (length packet < 256)%nat ->
+    mac_rejects enc mac_fn m packet (rf_max_payload rf) ->
+    handle_event enc mac_fn (NWaitRx join rx1 rx2 w rf) m e NPhy (RaRxDone packet) =
+    handle_event enc mac_fn (NWaitRx join rx1 rx2 w rf) m e NPhy RaRxing /\
+    (n_fault e <> Some (n_calls e) ->
+     handle_event enc mac_fn (NWaitRx join rx1 rx2 w rf) m e NPhy (RaRxDone packet) =
+     (NWaitRx join rx1 rx2 w rf, m, {| n_calls := n_calls e + 1; n_fault := n_fault e; n_trace := NcPhy :: n_trace e |}, NrNoUpdate)).
+  Proof. exact (nb_rejected_frame_keeps_the_window_open enc mac_fn). Qed.
 End C07.
